@@ -19,14 +19,21 @@
    removed or inserted (C20_layout_any, C20_layout_any_or_none) -- for every continuation of the source, and the
    compiled code and constants are then equal (C20_layout_any_compiles).  The theorems are universal in the
    layouts and in the continuation; the insertion point is certified per prefix (no syntactic criterion such as
-   "the prefix ends in ';'" is proved).  Not proved: parentheses around arbitrary sub-expressions (exercised by
-   the re-rendering oracle on every generated program). *)
+   "the prefix ends in ';'" is proved).  Redundant parentheses (Proofs/Parens.v): every call of the expression
+   grammar consumes a complete expression (C20_paren_subexpr: wrapping exactly the tokens one call consumed in '(' ')'
+   gives the same tree at every level), doubled parentheses, parenthesised right-hand sides of var / print / eval /
+   assignment / expression statements, and for whole programs C20_paren_program: inserting one pair around a node of
+   the parse (the context relation `PT`, whose constructors walk from the root to the parenthesised call; that it is
+   exactly "insert a pair around a segment" is `PT_ins`) leaves the tree, hence (C20_parens_irrelevant) the compiled
+   code and constants unchanged.  Where parentheses are NOT redundant the trees differ (`ex_not_redundant`).  The
+   `PT` witness is a hypothesis; for concrete programs it is built by constructors and reflexivity. *)
 From BCL Require Import Model.Lexer Lib.Strconv Proofs.LexerProofs Proofs.LayoutProofs.
 Open Scope N_scope.
 From BCL Require Import Model.Compile Spec.Syntax Proofs.ParserInvProofs Proofs.T2Proofs Proofs.Language.
 
 From BCL Require Import Model.Api Proofs.LayoutTree.
 From BCL Require Import Proofs.LexFuel Proofs.LexShift Proofs.LexLocal Proofs.LexLayout.
+From BCL Require Import Proofs.Parens.
 
 Theorem C20_comment_extent : forall body e rest c fuel,
   pending c = [] -> after c = body ++ e :: rest -> (e = 10 \/ e = 13) ->
@@ -232,6 +239,55 @@ Theorem C20_lexer_position_irrelevant : forall steps fuel c1 c2, ShU c1 c2 ->
   ShU (lex_run steps fuel c1) (lex_run steps fuel c2).
 Proof. first [exact LexShift.lex_run_shU | apply LexShift.lex_run_shU]. Qed.
 Print Assumptions C20_lexer_position_irrelevant.
+
+Theorem C20_paren_subexpr : forall f q ts e r lp rp, ttyp lp = tLPAREN -> ttyp rp = tRPAREN ->
+  pexpr f q ts = Some (e, r) ->
+  exists seg, ts = seg ++ r /\
+    pexpr f lvl_assign (seg ++ rp :: r) = Some (e, rp :: r) /\
+    forall g, (f < g)%nat -> pexpr g q (lp :: seg ++ rp :: r) = Some (e, r).
+Proof. first [exact Parens.paren_subexpr | apply Parens.paren_subexpr]. Qed.
+Print Assumptions C20_paren_subexpr.
+
+Theorem C20_paren_subexpr_eq : forall f g q seg r e lp rp, ttyp lp = tLPAREN -> ttyp rp = tRPAREN ->
+  pexpr f q (seg ++ r) = Some (e, r) -> (f < g)%nat ->
+  pexpr g q (lp :: seg ++ rp :: r) = pexpr g q (seg ++ r).
+Proof. first [exact Parens.paren_subexpr_eq | apply Parens.paren_subexpr_eq]. Qed.
+Print Assumptions C20_paren_subexpr_eq.
+
+Theorem C20_paren_double : forall f g q lp lp' seg rp' rp r e,
+  ttyp lp = tLPAREN -> ttyp lp' = tLPAREN -> ttyp rp' = tRPAREN -> ttyp rp = tRPAREN ->
+  pexpr f lvl_assign (seg ++ rp :: r) = Some (e, rp :: r) -> (f + 2 <= g)%nat ->
+  pexpr (S g) q (lp :: (lp' :: seg ++ [rp']) ++ rp :: r) = pexpr (S g) q (lp :: seg ++ rp :: r).
+Proof. first [exact Parens.paren_double | apply Parens.paren_double]. Qed.
+Print Assumptions C20_paren_double.
+
+Theorem C20_paren_stmt : forall f b t ts s r lp rp, ttyp lp = tLPAREN -> ttyp rp = tRPAREN ->
+  ttyp t = tPRINT \/ ttyp t = tEVAL ->
+  pstmt f b (t :: ts) = Some (s, r) ->
+  exists seg, ts = seg ++ r /\ forall g, (f < g)%nat -> pstmt g b (t :: lp :: seg ++ rp :: r) = Some (s, r).
+Proof. first [exact Parens.paren_stmt_kw | apply Parens.paren_stmt_kw]. Qed.
+Print Assumptions C20_paren_stmt.
+
+Theorem C20_paren_program : forall ts ts' p,
+  PT (4 * length ts + 8) ts ts' -> ast_program ts = Some p -> ast_program ts' = Some p.
+Proof. first [exact Parens.paren_program | apply Parens.paren_program]. Qed.
+Print Assumptions C20_paren_program.
+
+Theorem C20_parens_irrelevant : forall n1 n2 src1 src2,
+  PT (4 * length (fst (lex [src1])) + 8) (fst (lex [src1])) (fst (lex [src2])) ->
+  pr_ok (parse_whole n1 src1) = true -> pr_oof (parse_whole n1 src1) = false ->
+  pr_panic (parse_whole n1 src1) = false ->
+  pr_ok (parse_whole n2 src2) = true /\ pr_oof (parse_whole n2 src2) = false /\
+  pr_panic (parse_whole n2 src2) = false /\
+  g_code (pr_prog (parse_whole n1 src1)) = g_code (pr_prog (parse_whole n2 src2)) /\
+  g_consts (pr_prog (parse_whole n1 src1)) = g_consts (pr_prog (parse_whole n2 src2)).
+Proof. first [exact Parens.parens_irrelevant | apply Parens.parens_irrelevant]. Qed.
+Print Assumptions C20_parens_irrelevant.
+
+Theorem C20_expression_is_complete : forall f q ts e r, pexpr f q ts = Some (e, r) ->
+  exists seg, ts = seg ++ r /\ complete seg e.
+Proof. first [exact Parens.pexpr_complete | apply Parens.pexpr_complete]. Qed.
+Print Assumptions C20_expression_is_complete.
 
 Example C20_example :
   map ttyp (fst (lex [bs "print" ++ [194; 160; 11; 12] ++ bs "1 # not ; a ( token" ++ [13] ++ bs "print ""# ; ( "" "])) = [tPRINT; tINT; tPRINT; tSTR; tEOF].
